@@ -22,6 +22,8 @@ CLAIMS = {
             "Every set/call is tracked from the caller through the forwarded request on the owner's connection to the final answer; deadlines use the simulated clock.", "4 C03"),
     "C04": ("exploration", "reference-map monitor compared after every response, observer replica and get results (runtime monitoring)",
             "A reference map predicts the class of every well-formed request and is compared with a fetch-all observer and get results at every quiescent point.", "4 C04"),
+    "C07": ("exploration", "resource monitor (accounting, descriptor table, timers, epoll registrations at quiescence and at exit), descriptor-hygiene monitor of the simulated kernel, LeakSanitizer",
+            "Bus and hostile histories incl. half-open HTTP upgrades and injected set-up failures, followed by closing everything (idle baseline) or SIGTERM at a seeded step (exit 0, heap 0, nothing open, LSan silent); simulated descriptors are never reused so double close / use after close / foreign descriptors are always visible; heap-cap assertion in the allocation tap.", "4 C07"),
     "C08": ("exploration", "reference model with groups, allocator fill-byte variation and heap pre-conditioning, password-token scan of all output (runtime monitoring)",
             "Generated credential files and access declarations; visibility and set/call rights of every peer compared with a reference model; uninitialised memory explored through ASan malloc_fill_byte 0x00/0xff/0xa5/seeded and recycled chunks; every output byte and log line searched for the unique password tokens; local-only add from all origin kinds.", "4 C08"),
     "C14": ("exploration", "routing ledger on a virtual clock with explicitly composed epoll batches (runtime monitoring + ASan)",
